@@ -79,3 +79,7 @@ def run(ctx):
     rnd.shuffle(hs)
     ctx.log("histories: %d" % len(hs))
     ctx.replay(hs, timeout=3000, postprocess=group)
+    # EXT: history independence of small stateful objects (spec/Lexicon.tla, spec/Windows.tla)
+    from checks import ext_structs
+    ext_structs.run_lexicon(ctx)
+    ext_structs.run_windows(ctx)
